@@ -224,6 +224,15 @@ def _coord_check(ctx, fn, region, rows_sym, cols_sym, label):
             return norm(e)
 
         ok = isinstance(a, ast.Call) and call_name(a) in ("range", "np.arange") and len(a.args) == 1 and (norm(a.args[0]) in syms or _peel(a.args[0]) in syms)
+        # ... on every slice: the index coordinate is attached unconditionally (labels a stored array brought along are
+        # replaced), not only "when missing"
+        from sa.index import ancestors as _anc5
+
+        region_stmts = {id(x) for x in ast.walk(region)}
+        conds = [x for x in _anc5(c) if isinstance(x, (ast.If, ast.IfExp, ast.Try, ast.While)) and id(x) in region_stmts and not (isinstance(x, ast.If) and "isinstance(self._array" in norm(x.test)) and x is not region]
+        if ok and conds:
+            ctx.fail(f"{fn.qual}#{label}:{axis}", f"the '{axis}' index coordinate is attached only under `{norm(getattr(conds[0], 'test', conds[0]))[:60]}`: a stored array that carries its own '{axis}' labels keeps them, and the other buckets are re-indexed onto those labels", where=fn, node=c)
+            continue
         ctx.check(ok, f"{fn.qual}#{label}:{axis}", f"{axis} = range({norm(a.args[0]) if ok else ''})" if ok else f"'{axis}' coordinate is {norm(a)} (expected range over {sorted(syms)[0]})", where=fn, node=c)
 
 
